@@ -51,11 +51,12 @@ PROP = dict(
                   "handlers as guard lists: only the top-level structure of the handler body is modelled (translator trusted to read it; cross-checked by the matrix run)",
                   "wasm VM and contract execution (DispatchMsg is called directly with the contract address)"],
         assumptions=["positions of the fixture state are representative of reachable states (plus random owner histories)",
+                     "the reviewed id kinds of lookups and key fields (GuardsCheck.lookup_info / key_kind / owner_fields) are right; a write is recorded by callee name only, so the table does not say that the compared record is the very record later mutated - the chain from the message's own id field to the compared record stands for it",
                      "the reviewed exemption list (stable-mint vault = shared pool; interest/reward calc only accrue; liquidation is permissionless) is accepted"],
     )
 
 MANIFEST = dict(
-    level_text="Finite-table proof over tables REGENERATED from the Go source on every run (registered sdk.Msg types with signer / id fields; for every msgServer method the ordered guard checks, writes and early returns with delegation inlined; DispatchMsg's variant->handler map and each handler's chain-id/sender ladder): every message type that names a position and is not in the reviewed exemption list has an owner comparison or signer-keyed lookup on every path to success (vm_compute + forallb_forall), lifted by a generic lemma to 'for every store, write effect and outcome of the other checks a non-owner is rejected and nothing is committed'; every custom wasm variant on comdex-1 / comdex-test3 is accepted only from its designated contract; MsgKillSwitch only from an admin. The tables are cross-checked against the real code by a matrix run of every handler x owner/non-owners and every wasm variant x chain x sender.",
+    level_text="Finite-table proof over tables REGENERATED from the Go source on every run (registered sdk.Msg types with signer / id fields; for every msgServer method the ordered guard checks, writes and early returns with delegation inlined; DispatchMsg's variant->handler map and each handler's chain-id/sender ladder): every message type that names a position and is not in the reviewed exemption list has an owner comparison or signer-keyed lookup on every path to success (vm_compute + forallb_forall), and every owner comparison on its walk is made on a record fetched through a chain of lookups keyed, link by link, by an id of the kind the lookup expects and starting at a position-id field of the message itself (the translator records which record's owner field is compared and how the record was obtained; a lend looked up by a borrow's own id fails), lifted by a generic lemma to 'for every store, write effect and outcome of the other checks a non-owner is rejected and nothing is committed'; every custom wasm variant on comdex-1 / comdex-test3 is accepted only from its designated contract; MsgKillSwitch only from an admin. The tables are cross-checked against the real code by a matrix run of every handler, naming the positions of each of three owners whose position ids are deliberately misaligned across kinds, x {owner, the two other position owners, an account owning nothing, a fresh account} and every wasm variant x chain x sender.",
     design_ref="DESIGN.md section 4 C12",
     level_note="Trusted: Coq kernel, the translator tools/goextract (unrecognised shapes fail closed; dynamic cross-check), extraction, OCaml runner, Go harness; baseapp atomicity modelled. On chain ids other than the two named networks the wasm ladder accepts every sender (theorem c12_wasm_other_chain_accepts). No axioms.",
     technique="Coq proof by computation over regenerated tables + generic guard-list lemma + authority matrix run against the real msg servers and the real CustomMessenger",
